@@ -47,6 +47,16 @@ type Net struct {
 	NoTap     bool
 }
 
+// ConnByName returns the connection end with that name ("<pair>/a" or "<pair>/b"), or nil.
+func (n *Net) ConnByName(name string) *Conn {
+	for _, c := range n.Conns {
+		if c.Name == name {
+			return c
+		}
+	}
+	return nil
+}
+
 func New() *Net {
 	n := &Net{listeners: map[string]*Listener{}}
 	n.cond = sync.NewCond(&n.mu)
